@@ -17,7 +17,7 @@ EXPLANATION = ("Decided from MIR facts: (R1) Container::new_with_locator chains 
                "ContainerPackCreator::add_pack / InContainerFile::close record offset = position before, size = after - before. "
                "Equality of the logical dump across packagings is not decided."
                " (R6) tools::concat copies every pack whole under its own uuid; (R7) the manifest search visits every pack (only exits: next pack, error, Ok(Some(pack at hand))); (R8) locations recorded by BasicCreator::finalize are empty or made relative with diff_utf8_paths."
-               ' Added later: (R9) the size declared by a tail header is bounded by reader.size() itself and may equal it.')
+               ' Added later: (R9) the size declared by a tail header is bounded by reader.size() itself and may equal it. (R10) Container::new looks for other packs next to the path it was given (no canonicalisation).')
 ASSUMPTIONS = ["std::io seek/tell semantics", "HashMap lookup by uuid", "rustc MIR construction and trait resolution"]
 
 CONSTRUCTORS = (r"content_pack::ContentPack::new$", r"directory_pack::DirectoryPack::new$", r"manifest_pack::ManifestPack::new$")
